@@ -11,8 +11,8 @@ def check(pid, engine, category, technique, text, note, design=None, thorough=Tr
     CHECKS[pid] = dict(engine=engine, category=category, technique=technique, text=text, note=note, design=design or ("§5 " + pid), thorough=thorough)
 
 check("C01", "E2 enum", "exploration",
-      "bounded-exhaustive enumeration of program families (binding kind x execution context x use; every non-blocking misuse sequence of the sync primitives up to a length bound; crash regression corpus) in crash-journalled worker processes",
-      "324 binding/context/use programs (top level, method, defer, do-finally, closure, generator, async, nested async, go thread), every single-threaded misuse sequence of length <=3 (thorough 5) over Mutex/RWMutex/WaitGroup/Once/Channel operations that a blocking model says cannot block, and one minimal program per crash found so far run on the real checker+VM; any Go panic, fatal error or dead worker is a violation. Every other check additionally reports host crashes of its own program space under its own property.",
+      "bounded-exhaustive enumeration of program families (binding kind x execution context x use; every non-blocking misuse sequence of the sync primitives up to a length bound; crash regression corpus; mutation of a collection while it is iterated) in crash-journalled worker processes",
+      "324 binding/context/use programs (top level, method, defer, do-finally, closure, generator, async, nested async, go thread), every single-threaded misuse sequence of length <=3 (thorough 5) over Mutex/RWMutex/WaitGroup/Once/Channel operations that a blocking model says cannot block, one minimal program per crash found so far, and 1 040 programs mutating a collection (9 kinds incl. unboxed lists, sets, map) at step 1..5 of a for-in / explicit-iterator loop with up to 15 mutation sequences, run on the real checker+VM; any Go panic, fatal error or dead worker is a violation. Every other check additionally reports host crashes of its own program space under its own property.",
       "stack exhaustion excluded by construction; narrowing/invalidation family is C02's, std calls C28's, multi-threaded primitives C25's")
 
 check("C06", "E2 enum", "exploration",
@@ -126,8 +126,8 @@ check("C30", "E2 enum", "exploration",
       "guards do not exist in the grammar; identifier patterns naming existing variables, === / =~ patterns, catch/for patterns are outside the space")
 
 check("C31", "E2 enum", "exploration",
-      "bounded-exhaustive enumeration of macro bodies (1-2, thorough 1-3 statements over 12 forms) x caller scopes x arguments x call sites against a hand-expanded renamed program",
-      "Quote bodies binding/reading/assigning locals a and b hygienically or through !{unhygienic(...)}, callers defining none/a/b/both and printing them after the call, arguments a, a+b, 7, call site top-level or in a method, plus a probe reading a macro-defined name after the call: each program's behaviour must equal a Go model of the hand-expanded program with the macro's locals renamed apart (the model is validated by running the renamed expansion through Elk) and the printed expansion.",
+      "bounded-exhaustive enumeration of macro bodies (1-2, thorough 1-3 statements over 14 forms) x caller state of each name (absent / defined / declared uninitialised) x plain or if-wrapped body x arguments x call sites against a hand-expanded renamed program",
+      "Quote bodies binding/reading/assigning locals a and b hygienically or through !{unhygienic(...)}, every caller state of a and b (not declared, defined before the call, declared uninitialised before and assigned after it), printed after the call, the quoted body plain or wrapped in an `if`, arguments a, a+b, 7, call site top-level or in a method, plus a probe reading a macro-defined name after the call: each program's behaviour must equal a Go model of the hand-expanded program with the macro's locals renamed apart (the model is validated by running the renamed expansion through Elk) and the printed expansion.",
       "unquote_ident, pattern/type macros, nested macro calls are outside the space; three situations the statement leaves open are only counted")
 
 check("C27", "E2 enum", "exploration",
@@ -137,7 +137,7 @@ check("C27", "E2 enum", "exploration",
 
 check("C28", "E2 enum", "exploration",
       "exhaustive walk of the std type environment: every declared method x every admissible arity x receiver and argument literal pools, observed on the VM",
-      "Every method of the 425 Std namespaces (2 719 entries; quick: a fixed core subset of 1 330) is called with up to 3 receivers per type, every arity from required to required+optional and argument tuples from per-type pools; the call must not fail with NoMethodError / wrong argument count / Go panic, the result's runtime class must be an instance of the declared return type (classes, mixins, unions, nilable, literal types, self; interfaces by method presence), and a thrown value an instance of the declared throw type or an unchecked error.",
+      "Every method of the 425 Std namespaces (2 719 entries; quick: a fixed core subset of 1 330) is called with up to 6 receivers per type (for lists/tuples also the unboxed specialisations; for mixins also empty ArrayList/HashSet/HashMap instances), method-level type parameters unbound and bound to the receiver's element type, every arity from required to required+optional and argument tuples from per-type pools; the call must not fail with NoMethodError / wrong argument count / Go panic, the result must not be the VM's internal undefined value and its runtime class must be an instance of the declared return type (classes, mixins, unions, nilable, literal types, self; interfaces by method presence), and a thrown value an instance of the declared throw type or an unchecked error.",
       "returns typed by method-level type parameters, callables and singleton types are undecidable (counted); blocking, I/O and process-control methods are excluded by an explicit list printed into the evidence")
 
 check("C32", "E2 enum", "exploration",
@@ -177,7 +177,7 @@ check("C10", "E2 enum", "exploration",
 
 check("C29", "E4 bcverify", "model_checking",
       "explicit-state exploration of an abstract machine over the compiler's real bytecode (states = (function, pc, abstract operand stack); all control-flow edges incl. catch entries and finally dispatch) + conformance replay: VM depth probe injected by build overlay compares observed (function, pc, sp-fp) with the model",
-      "Every BytecodeFunction reachable from 710 generated programs (each compiled with and without abort checks) is decoded with operand widths taken from the VM source, explored over all edges as abstract states (2.9 M states quick) checking: no underflow, one operand depth per pc outside finally sections, jump targets on instruction boundaries, catch entries consistent, max depth below the declared frame need; the depths the real VM reaches while running the programs are replayed against the model.",
+      "Every BytecodeFunction reachable from 786 generated programs (template grammar singles and pairs, every construct followed by a pool-emitted tail expression, wide programs, C15/C01/mini families) (each compiled with and without abort checks) is decoded with operand widths taken from the VM source, explored over all edges as abstract states (2.9 M states quick) checking: no underflow, one operand depth per pc outside finally sections, jump targets on instruction boundaries, catch entries consistent, max depth below the declared frame need; the depths the real VM reaches while running the programs are replayed against the model.",
       "stack-effect table is hand-written and trusted only where the probe confirms it; opcodes never reached are listed in the evidence")
 
 NOT_YET = "check not built yet in this round (planned, see DESIGN.md section 5)"
